@@ -346,6 +346,16 @@ def r4(ctx):
         return
     # the lookup loop: a loop whose body tests membership in the effect map
     inner = [n for n in walk_own(lp) if isinstance(n, ast.For) and n is not lp and any(isinstance(x, ast.Compare) and isinstance(x.ops[0], (ast.In, ast.NotIn)) and U(x.comparators[0]) == MAP for x in ast.walk(n))]
+    if not inner:
+        # recognised wrong: `if not MAP.get(key)` - the truthiness of the looked-up effect used as the membership test: a measured effect of
+        # exactly 0.0 counts as missing
+        for t_ in [n.test for n in walk_own(lp) if isinstance(n, (ast.If, ast.IfExp))]:
+            tt = t_.operand if isinstance(t_, ast.UnaryOp) and isinstance(t_.op, ast.Not) else t_
+            tt = inline(tt, lenv) if isinstance(tt, ast.Name) else tt
+            if isinstance(tt, ast.Call) and attr_tail(tt) == "get" and U(tt.func.value) == MAP and len(tt.args) == 1:
+                ctx.bad("R4", f"{f.site()}::missing-effect-test", f"`{U(t_)}` uses the truthiness of the looked-up single-agent effect as the test for a missing "
+                        f"measurement: an effect of exactly 0.0 (complete kill) is treated as missing - the combination is skipped, or refused in strict mode")
+                return
     ctx.need(len(inner) == 1, f"{f.site()}: the per-treatment effect lookup loop was not found")
     il = inner[0]
     ienv = {n.targets[0].id: n.value for n in il.body if isinstance(n, ast.Assign) and isinstance(n.targets[0], ast.Name)}
